@@ -8,8 +8,9 @@ CFG = {
     "corpus": ["(?((?(b)a))b|a)", "^(\\()?a+(?(1)\\))$", "^(?(a)ab)\\w+$", "^(?(a+)ab)$", "^(?:(x)y(?(1)z))+$", "^(a)(?(1)b)c$", "^(?>(x)(?(1)y))z$",
                "(a)?(?(1)b|c)", "(?(1)a|b)", "(a)(?(1))", "(?<n>a)?(?(<n>)b|c)", "(?:(a)|b)(?(1)c|d)", "((?(2)a|b)(c)?)*", "(?(?=a)ab|c)", "(?(?!a)b|a)c",
                # a condition on the group it sits inside, across iterations of a repeat
+               "(x)?(?(1)|b)", "^(?(a)|b)$", "(?<n>x)?(?(<n>)|b)c", "(x)?(?(1)|b|c)", "(?:(x)?(?(1)|b))+c", "(?((?(a)|b))c|d)", "^(x)?(?(1)a*|b)a$", "^(x)?(?(1)c|a|ab)c$", "^(?(x)a*|b)a$",
                "(?:x((?(1)a|b)))+", "((?(1)a|b))+", "(x(?(1)a|b))+", "(?:(a)|b(?(1)c|d))+", "(?:x((?(1)a|b))y?)*", "(?:(x)|((?(2)a|b)))+", "((?(1)x|a))*?b", "(a|(?(1)b|c)x)+"],
-    "extra_texts": ["(a", "(a)", "ab", "ac", "abc", "bc", "cb", "aab", "xyzxy", "xyz", "5x", "xaxa", "xbxa", "xaxb", "xbxaxa", "bdc", "aab", "baxb"],
+    "extra_texts": ["(a", "(a)", "ab", "ac", "abc", "bc", "cb", "aab", "xyzxy", "xyz", "5x", "b", "bc", "xb", "xaa", "xaac", "xaxa", "xbxa", "xaxb", "xbxaxa", "bdc", "aab", "baxb"],
     "alpha": ["a", "b", "c", "x", "-"],
 }
 
